@@ -31,6 +31,7 @@ fn removed_by_id(v: &[v1::RemovedConstraint]) -> BTreeMap<u64, Vec<v1::RemovedCo
     }
     m
 }
+#[allow(dead_code)]
 fn deps_as_polys(m: &std::collections::HashMap<u64, v1::Function>) -> BTreeMap<u64, Poly> {
     m.iter().map(|(k, f)| (*k, Poly::from_function(f))).collect()
 }
@@ -147,7 +148,19 @@ impl Property for C10 {
             if back.constraint_hints != inst.constraint_hints {
                 ctx.label("roundtrip-hints-differ");
             }
-            if vars_by_id(&back.decision_variables) != vars_by_id(&inst.decision_variables) || back.sense != inst.sense || removed_math(&back.removed_constraints) != removed_math(&inst.removed_constraints) || deps_as_polys(&back.decision_variable_dependency) != deps_as_polys(&inst.decision_variable_dependency) {
+            // definitions of dependent variables: the same keys, each the same function up to the documented re-normalisation
+            // (an implementation may run them through the same partial evaluation as the objective)
+            {
+                let ka: BTreeSet<u64> = inst.decision_variable_dependency.keys().copied().collect();
+                let kb: BTreeSet<u64> = back.decision_variable_dependency.keys().copied().collect();
+                if ka != kb {
+                    return fail("C10/roundtrip/other-fields", format!("dependency keys changed in the round trip of {}", describe_inst(&inst)));
+                }
+                for k in &ka {
+                    check_partial("C10/roundtrip/dependency", &inst.decision_variable_dependency[k], &back.decision_variable_dependency[k], &empty, regime)?;
+                }
+            }
+            if vars_by_id(&back.decision_variables) != vars_by_id(&inst.decision_variables) || back.sense != inst.sense || removed_math(&back.removed_constraints) != removed_math(&inst.removed_constraints) {
                 return fail("C10/roundtrip/other-fields", format!("variables/sense/removed/dependencies/hints changed in the round trip of {}", describe_inst(&inst)));
             }
             return Ok(());
@@ -355,8 +368,18 @@ impl Property for C10 {
         }
         // the definitions of dependent variables are not in the statement's list; they do not mention parameters here, so
         // they must at least stay the same functions (any representation)
-        if deps_as_polys(&out.decision_variable_dependency) != deps_as_polys(&pi.decision_variable_dependency) {
-            return fail("C10/dependencies-changed", ctxmsg("dependencies changed".into()));
+        {
+            let ka: BTreeSet<u64> = pi.decision_variable_dependency.keys().copied().collect();
+            let kb: BTreeSet<u64> = out.decision_variable_dependency.keys().copied().collect();
+            if ka != kb {
+                return fail("C10/dependencies-changed", ctxmsg("dependency keys changed".into()));
+            }
+            for k in &ka {
+                check_partial("C10/dependencies-changed", &pi.decision_variable_dependency[k], &out.decision_variable_dependency[k], &pstate, regime).map_err(|mut f| {
+                    f.message = ctxmsg(f.message);
+                    f
+                })?;
+            }
         }
         if out.description != pi.description {
             ctx.label("description-differs");
